@@ -143,9 +143,27 @@ MATH_MODELS = {}
 TRANSPARENT_NATIVE = {NumStr}   # callables that may be called natively even with symbolic args
 
 
+class SymIter:
+    """Iterator over already evaluated items of a generator expression, some of them symbolic."""
+    def __init__(self, items):
+        self.items = list(items)
+        self.pos = 0
+
+    def __iter__(self):
+        return self
+
+    def __next__(self):
+        if self.pos >= len(self.items):
+            raise StopIteration
+        self.pos += 1
+        return self.items[self.pos - 1]
+
+
 def anysym(x, _seen=None, _depth=0):
     if is_sym(x) or isinstance(x, (SymArray, NumStr)):
         return True
+    if isinstance(x, SymIter):
+        return anysym(x.items[x.pos:], _seen, _depth + 1)
     if x is None or isinstance(x, (int, float, str, bool, bytes, types.ModuleType, types.FunctionType, type)):
         return False
     if _depth > 8:
@@ -938,8 +956,8 @@ class Interp:
                 if anysym(out):
                     return SymSet(out)
                 return set(out)
-            # a generator with symbolic items is handed over as a list so that the models of sum / fsum / max see it
-            return out if isinstance(e, ast.ListComp) or anysym(out) else iter(out)
+            # a generator with symbolic items is handed over as an iterator the engine can look into (anysym)
+            return out if isinstance(e, ast.ListComp) else (SymIter(out) if anysym(out) else iter(out))
         if isinstance(e, ast.DictComp):
             out = {}
 
